@@ -111,7 +111,7 @@ pub fn dump(fsm: &Fsm) -> String {
             let v: Vec<String> = s
                 .invoke
                 .iterator()
-                .map(|i| format!("{}:{}:{}", i.doc_id, if i.autoforward { 1 } else { 0 }, i.finalize))
+                .map(|i| format!("{}:{}:{}:{}", i.doc_id, if i.autoforward { 1 } else { 0 }, i.finalize, hexs(&i.invoke_id)))
                 .collect();
             if v.is_empty() {
                 ".".to_string()
